@@ -7,4 +7,5 @@ Extraction "../ocaml/c20/model.ml" util_add util_mul util_divmod
   locate_snapshot_file has_all_external_files payload_checksum is_complete_image crc_offsets
   import_run import_prog mutating
   logdb_import tan_import apply_lsop empty_logstore ls_get_snapshot ls_visible_entries
-  path_base mnorm z_of_n do_recover restart_recover is_shrunk_snapshot.
+  path_base mnorm z_of_n do_recover restart_recover is_shrunk_snapshot
+  apply_tsop tan_import_t ts_visible_entries empty_tstore tool_store_dirs nodehost_store_dirs same_dirs.
